@@ -1,15 +1,15 @@
-SPECIFICATION Spec
+SPECIFICATION FairSpec
 CONSTANTS
-  Conns = {c1, c2}
+  Conns = {c1}
   W = 2
   Hashes = {1, 2}
   Keys = {k1}
-  MaxScrape = 1
+  MaxScrape = 2
   KeepAlive = TRUE
   ScrapeLists <- MCScrapeLists
-  TruncateFirst = FALSE
+  TruncateFirst = TRUE
   BlankFirst = TRUE
   MaxReq = 2
 INVARIANTS WellFramed InOrder WorkersInvisible
-PROPERTIES Isolation
+PROPERTIES Isolation Answered
 CHECK_DEADLOCK FALSE
